@@ -386,10 +386,12 @@ public:
          left.reDim(num());
          right.reDim(num());
          object.reDim(num());
+         scaleExp.reSize(num());
       }
 
       left[num() - 1] = *lhsValue;
       right[num() - 1] = *rhsValue;
+      scaleExp[num() - 1] = 0;
 
       if(objValue != nullptr)
          object[num() - 1] = *objValue;
